@@ -223,6 +223,7 @@ func (prop) Generate(r *prng.Rand, phase string) any {
 		cfg.MaxParts = 4
 	}
 	l := []int{1, 2, 3, 4, 5}[r.Intn(5)]
+	idxRange := 64 // indexes of mutations are taken modulo the object's size
 	switch r.Pick(12, 1, 2) {
 	case 0:
 		s.Kind = cloneable[r.Intn(len(cloneable))]
@@ -244,6 +245,14 @@ func (prop) Generate(r *prng.Rand, phase string) any {
 				cs[i] = c
 			}
 			s.G = &mgeom.Geom{T: mgeom.LS, L: l, P: [][][]mgeom.Coord{{cs}}}
+		}
+		if r.Chance(0.002) && l <= 4 {
+			// very many small parts (an allocator that works in slabs or pools
+			// rows rolls over): end offsets beyond the 256th, 512th row
+			s.Kind = []string{mgeom.MPg, mgeom.MPg, mgeom.Pg, mgeom.MLS, mgeom.MPt}[r.Intn(5)]
+			k := []int{255, 256, 257, 258, 300, 513, 514, 771}[r.Intn(8)]
+			s.G = cfg.ManyParts(r, s.Kind, l, k)
+			idxRange = 1024
 		}
 		if r.Chance(0.02) {
 			// an object without a layout (it can only be empty)
@@ -305,7 +314,7 @@ func (prop) Generate(r *prng.Rand, phase string) any {
 	for w := 0; w < 2; w++ {
 		n := r.Range(0, []int{1, 3, 6, 12}[r.Intn(4)])
 		for i := 0; i < n; i++ {
-			m := Mut{K: kinds[r.Intn(len(kinds))], I: r.Intn(64), J: r.Intn(64)}
+			m := Mut{K: kinds[r.Intn(len(kinds))], I: r.Intn(idxRange), J: r.Intn(64)}
 			if s.Kind == "Bounds" {
 				m.V = mgeom.F(r.SmallFloat())
 			} else {
@@ -372,7 +381,7 @@ func (prop) Generate(r *prng.Rand, phase string) any {
 			// a history before the clone: taken from the same mutation kinds
 			n := r.Range(1, 6)
 			for i := 0; i < n; i++ {
-				m := Mut{K: kinds[r.Intn(len(kinds))], I: r.Intn(64), J: r.Intn(64), V: mgeom.F(r.AnyFloatBits())}
+				m := Mut{K: kinds[r.Intn(len(kinds))], I: r.Intn(idxRange), J: r.Intn(64), V: mgeom.F(r.AnyFloatBits())}
 				switch m.K {
 				case "push":
 					m.Part = cfg.Gen(r, partOf[s.Kind], s.G.L, 0)
